@@ -1,16 +1,32 @@
-# builds the explorer against /repo/src/cat.c from the current working tree
+# builds the explorer and sweep drivers against $(REPO)/src/cat.c from the current working tree
 REPO ?= /repo
-CC ?= gcc
+B ?= build
+CC = gcc
+CLANG = clang
 CFLAGS = -O2 -g -Wall -Wextra -Wno-unused-parameter -Wno-format-truncation -I$(REPO)/src -Iengine
+SANFLAGS = -O1 -g -fsanitize=address,undefined -fsanitize-recover=all -fno-omit-frame-pointer -DW_SANITIZE -Wno-unused-parameter -I$(REPO)/src -Iengine
 ENGINE = engine/mcx.c engine/world.c engine/gen.c engine/fifo.c engine/ref.c engine/mon.c
 HDRS = engine/mcx.h engine/world.h engine/wint.h
-RINGS = 1 2 3 8
+LIB = $(REPO)/src/cat.c $(REPO)/src/cat.h
 
-all: $(foreach r,$(RINGS),build/mcx_r$(r))
+all: $(B)/mcx_r1 $(B)/mcx_r2 $(B)/mcx_r3 $(B)/mcx_r8
 
-build/mcx_r%: $(ENGINE) engine/mcxmain.c $(HDRS) $(REPO)/src/cat.c $(REPO)/src/cat.h
-	@mkdir -p build
+$(B)/mcx_r%: $(ENGINE) engine/mcxmain.c $(HDRS) $(LIB)
+	@mkdir -p $(B)
 	$(CC) $(CFLAGS) -DCAT_UNSOLICITED_CMD_BUFFER_SIZE=$* $(ENGINE) engine/mcxmain.c $(REPO)/src/cat.c -o $@
+
+$(B)/mcxasan_r%: $(ENGINE) engine/mcxmain.c engine/sanhooks.c $(HDRS) $(LIB)
+	@mkdir -p $(B)
+	$(CLANG) $(SANFLAGS) -DCAT_UNSOLICITED_CMD_BUFFER_SIZE=$* $(ENGINE) engine/mcxmain.c engine/sanhooks.c $(REPO)/src/cat.c -o $@
+
+# sweep drivers: sweeps/<name>.c with its own main
+$(B)/sw_%: sweeps/%.c $(ENGINE) $(HDRS) $(LIB) sweeps/sweep.h
+	@mkdir -p $(B)
+	$(CC) $(CFLAGS) -Isweeps -DCAT_UNSOLICITED_CMD_BUFFER_SIZE=1 $(ENGINE) $< $(REPO)/src/cat.c -o $@
+
+$(B)/swasan_%: sweeps/%.c $(ENGINE) engine/sanhooks.c $(HDRS) $(LIB) sweeps/sweep.h
+	@mkdir -p $(B)
+	$(CLANG) $(SANFLAGS) -Isweeps -DCAT_UNSOLICITED_CMD_BUFFER_SIZE=1 $(ENGINE) $< engine/sanhooks.c $(REPO)/src/cat.c -o $@
 
 clean:
 	rm -rf build
